@@ -15,8 +15,27 @@ import (
 // Go implementation (as lisp forms) and on the slice-level model (op H of the driver).
 
 type regInfo struct {
-	kind string // "vec", "list", "map"
-	n    int    // length of a sequence
+	kind string          // "vec", "list", "map"
+	n    int             // length of a sequence
+	keys map[string]bool // keys of a map
+}
+
+func keysOf(ks ...string) map[string]bool {
+	m := map[string]bool{}
+	for _, k := range ks {
+		m[k] = true
+	}
+	return m
+}
+func unionKeys(a, b map[string]bool) map[string]bool {
+	m := map[string]bool{}
+	for k := range a {
+		m[k] = true
+	}
+	for k := range b {
+		m[k] = true
+	}
+	return m
 }
 
 type l1gen struct {
@@ -69,14 +88,25 @@ func (g *l1gen) next() (string, types.MalType) {
 				xs[i] = ol
 			}
 			g.hist["lit-vector"]++
-			g.regs = append(g.regs, regInfo{"vec", n})
+			g.regs = append(g.regs, regInfo{"vec", n, nil})
 			return w, types.Vector{Val: xs}
-		case 2: // literal map
-			ow, ol := g.operand()
-			k := g.r.Pick([]string{K("a"), K("b")})
-			g.hist["lit-map"]++
-			g.regs = append(g.regs, regInfo{"map", 0})
-			return "2 1 " + encKey(k) + ow, Call("hash-map", k, ol)
+		case 2: // literal map of 0..3 entries over four keys (merge of a small into a larger map, disjoint or overlapping)
+			keys := []string{K("a"), K("b"), K("c"), K("d")}
+			for i := len(keys) - 1; i > 0; i-- {
+				j := g.r.Intn(i + 1)
+				keys[i], keys[j] = keys[j], keys[i]
+			}
+			n := g.r.Intn(4)
+			w := fmt.Sprintf("2 %d ", n)
+			form := []types.MalType{S("hash-map")}
+			for i := 0; i < n; i++ {
+				ow, ol := g.operand()
+				w += encKey(keys[i]) + ow
+				form = append(form, keys[i], ol)
+			}
+			g.hist[fmt.Sprintf("lit-map-%d", n)]++
+			g.regs = append(g.regs, regInfo{"map", 0, keysOf(keys[:n]...)})
+			return w, types.List{Val: form}
 		case 3, 4, 5: // conj
 			if r := g.pickKind("vec", "list"); r >= 0 {
 				n := 1 + g.r.Intn(2)
@@ -88,7 +118,7 @@ func (g *l1gen) next() (string, types.MalType) {
 					form = append(form, ol)
 				}
 				g.hist["conj-"+g.regs[r].kind]++
-				g.regs = append(g.regs, regInfo{g.regs[r].kind, g.regs[r].n + n})
+				g.regs = append(g.regs, regInfo{g.regs[r].kind, g.regs[r].n + n, nil})
 				return w, types.List{Val: form}
 			}
 		case 6, 7: // concat
@@ -104,14 +134,14 @@ func (g *l1gen) next() (string, types.MalType) {
 					total += g.regs[r2].n
 				}
 				g.hist["concat"]++
-				g.regs = append(g.regs, regInfo{"list", total})
+				g.regs = append(g.regs, regInfo{"list", total, nil})
 				return w, types.List{Val: form}
 			}
 		case 8: // cons
 			if r := g.pickKind("vec", "list"); r >= 0 {
 				ow, ol := g.operand()
 				g.hist["cons"]++
-				g.regs = append(g.regs, regInfo{"list", g.regs[r].n + 1})
+				g.regs = append(g.regs, regInfo{"list", g.regs[r].n + 1, nil})
 				return "5 " + ow + fmt.Sprintf("%d ", r), Call("cons", ol, reg(r))
 			}
 		case 9: // rest
@@ -121,18 +151,18 @@ func (g *l1gen) next() (string, types.MalType) {
 					n = 0
 				}
 				g.hist["rest"]++
-				g.regs = append(g.regs, regInfo{"list", n})
+				g.regs = append(g.regs, regInfo{"list", n, nil})
 				return fmt.Sprintf("6 %d ", r), Call("rest", reg(r))
 			}
 		case 10: // vec / seq (seq only on non-empty sequences: (seq ()) is nil)
 			if r := g.pickKind("vec", "list"); r >= 0 {
 				if g.r.Bool() || g.regs[r].n == 0 {
 					g.hist["vec"]++
-					g.regs = append(g.regs, regInfo{"vec", g.regs[r].n})
+					g.regs = append(g.regs, regInfo{"vec", g.regs[r].n, nil})
 					return fmt.Sprintf("7 %d ", r), Call("vec", reg(r))
 				}
 				g.hist["seq"]++
-				g.regs = append(g.regs, regInfo{"list", g.regs[r].n})
+				g.regs = append(g.regs, regInfo{"list", g.regs[r].n, nil})
 				return fmt.Sprintf("8 %d ", r), Call("seq", reg(r))
 			}
 		case 11: // subvec within range
@@ -140,7 +170,7 @@ func (g *l1gen) next() (string, types.MalType) {
 				from := g.r.Intn(g.regs[r].n + 1)
 				to := from + g.r.Intn(g.regs[r].n-from+1)
 				g.hist["subvec"]++
-				g.regs = append(g.regs, regInfo{"vec", to - from})
+				g.regs = append(g.regs, regInfo{"vec", to - from, nil})
 				return fmt.Sprintf("10 %d %d %d ", r, from, to), Call("subvec", reg(r), from, to)
 			}
 		case 12: // take / drop
@@ -152,7 +182,7 @@ func (g *l1gen) next() (string, types.MalType) {
 						m = n
 					}
 					g.hist["take"]++
-					g.regs = append(g.regs, regInfo{"list", m})
+					g.regs = append(g.regs, regInfo{"list", m, nil})
 					return fmt.Sprintf("11 %d %d ", n, r), Call("take", n, reg(r))
 				}
 				m -= n
@@ -160,7 +190,7 @@ func (g *l1gen) next() (string, types.MalType) {
 					m = 0
 				}
 				g.hist["drop"]++
-				g.regs = append(g.regs, regInfo{"list", m})
+				g.regs = append(g.regs, regInfo{"list", m, nil})
 				return fmt.Sprintf("12 %d %d ", n, r), Call("drop", n, reg(r))
 			}
 		case 13: // assoc on a map
@@ -168,7 +198,7 @@ func (g *l1gen) next() (string, types.MalType) {
 				k := g.r.Pick([]string{K("a"), K("b"), K("c")})
 				ow, ol := g.operand()
 				g.hist["assoc-map"]++
-				g.regs = append(g.regs, regInfo{"map", 0})
+				g.regs = append(g.regs, regInfo{"map", 0, unionKeys(g.regs[r].keys, keysOf(k))})
 				return fmt.Sprintf("13 %d ", r) + encKey(k) + ow, Call("assoc", reg(r), k, ol)
 			}
 		case 14: // assoc on a vector, index in range
@@ -176,21 +206,37 @@ func (g *l1gen) next() (string, types.MalType) {
 				i := g.r.Intn(g.regs[r].n)
 				ow, ol := g.operand()
 				g.hist["assoc-vec"]++
-				g.regs = append(g.regs, regInfo{"vec", g.regs[r].n})
+				g.regs = append(g.regs, regInfo{"vec", g.regs[r].n, nil})
 				return fmt.Sprintf("14 %d %d ", r, i) + ow, Call("assoc", reg(r), i, ol)
 			}
 		case 15: // dissoc (first key possibly absent, later one present)
 			if r := g.pickKind("map"); r >= 0 {
 				ks := []string{g.r.Pick([]string{K("zz"), K("a")}), g.r.Pick([]string{K("a"), K("b")})}
 				g.hist["dissoc"]++
-				g.regs = append(g.regs, regInfo{"map", 0})
+				left := unionKeys(g.regs[r].keys, nil)
+				delete(left, ks[0])
+				delete(left, ks[1])
+				g.regs = append(g.regs, regInfo{"map", 0, left})
 				return fmt.Sprintf("15 %d 2 ", r) + encKey(ks[0]) + encKey(ks[1]), Call("dissoc", reg(r), ks[0], ks[1])
 			}
 		case 16: // merge
 			if r := g.pickKind("map"); r >= 0 {
 				r2 := g.pickKind("map")
+				// half of the time: a smaller map that brings a new key, merged into a strictly larger one
+				if g.r.Bool() {
+					for a, ra := range g.regs {
+						for b, rb := range g.regs {
+							if ra.kind == "map" && rb.kind == "map" && len(rb.keys) > len(ra.keys) && len(unionKeys(ra.keys, rb.keys)) > len(rb.keys) {
+								r, r2 = a, b
+							}
+						}
+					}
+					if len(g.regs[r2].keys) > len(g.regs[r].keys) {
+						g.hist["merge-small-with-new-key-into-larger"]++
+					}
+				}
 				g.hist["merge"]++
-				g.regs = append(g.regs, regInfo{"map", 0})
+				g.regs = append(g.regs, regInfo{"map", 0, unionKeys(g.regs[r].keys, g.regs[r2].keys)})
 				return fmt.Sprintf("16 %d %d ", r, r2), Call("merge", reg(r), reg(r2))
 			}
 		default: // with-meta: shares the array / map
